@@ -42,7 +42,7 @@ var (
 	profC12   = mkProfile("C12", 40, 110, map[string]int{"st.commit": 2, "i.write": 3, "i.challenge": 3, "i.late": 3, "st.gen_chal": 2, "st.chal_resp": 2, "st.update_alloc": 2, "i.killreplace": 2, "st.read": 0, "st.free_alloc": 0, "i.reads": 0, "i.free": 0})
 	profC13   = mkProfile("C13", 40, 110, map[string]int{"st.new_alloc": 2, "st.update_alloc": 3, "st.kill": 3, "i.killreplace": 4, "st.update_blobber": 3, "i.expire": 2, "st.read": 0, "i.reads": 0, "st.stake": 2, "st.unstake": 2})
 	profC14   = mkProfile("C14", 40, 110, map[string]int{"st.finalize": 3, "st.cancel": 3, "i.expire": 4, "i.postclose": 4, "st.wp_lock": 2, "i.write": 2, "i.challenge": 2, "st.read": 0, "i.reads": 0, "st.kill": 2})
-	profC15   = mkProfile("C15", 40, 110, map[string]int{"st.read": 6, "i.reads": 6, "st.rp_lock": 3, "st.rp_unlock": 2, "st.commit": 0, "i.write": 0, "i.challenge": 0, "i.late": 0, "st.gen_chal": 0, "st.chal_resp": 0, "st.free_alloc": 0, "i.free": 0, "i.killreplace": 0})
+	profC15   = mkProfile("C15", 40, 110, map[string]int{"st.read": 6, "i.reads": 6, "i.reads_ts": 10, "st.rp_lock": 3, "st.rp_unlock": 2, "st.commit": 0, "i.write": 0, "i.challenge": 0, "i.late": 0, "st.gen_chal": 0, "st.chal_resp": 0, "st.free_alloc": 0, "i.free": 0, "i.killreplace": 0})
 	profC24   = mkProfile("C24", 30, 90, map[string]int{"st.free_alloc": 8, "i.free": 8, "st.add_assigner": 4, "st.commit": 0, "i.write": 0, "i.challenge": 0, "i.late": 0, "st.gen_chal": 0, "st.chal_resp": 0, "st.read": 0, "i.reads": 0, "i.killreplace": 0})
 )
 
@@ -104,6 +104,8 @@ func genStep(r *sim.RNG, op string) sim.Step {
 	case "st.read":
 		st.A = r.Intn(8)
 		st.I = []int64{ri(r, 8), allocMode(r), ri(r, 8), int64(r.Pick([]int{6, 4, 2, 2, 2, 1, 1, 3})), int64(r.Pick([]int{30, 2, 2, 1, 1, 2, 2, 0, 0, 3})), int64(r.Pick([]int{5, 1, 1, 1}))}
+		// timestampKind from a child stream (Child does not advance r): the plans of checks that never read stay as they were
+		st.I = append(st.I, int64(r.Child("read-ts").Pick([]int{14, 2, 1, 1, 2, 0, 0, 2})))
 	case "st.add_assigner":
 		st.A = r.Pick([]int{9, 1})
 		st.I = []int64{ri(r, 4), int64(r.Pick([]int{2, 4, 2, 1, 1})), int64(r.Pick([]int{3, 3, 2, 1, 2}))}
@@ -204,6 +206,36 @@ func expand(r *sim.RNG, op string, mccr int) []sim.Step {
 			s := genStep(r, "st.read")
 			s.A = c
 			out = append(out, withI(withI(withI(s, 0, a), 1, 0), 2, b))
+		}
+		return out
+	case "i.reads_ts":
+		// markers of one (client, blobber, allocation) whose timestamps are not monotone with their counters: a marker
+		// signed later (or ahead of the clock) is redeemed first, then a higher counter under an older, still valid
+		// timestamp, then the last redeemed marker again (and again)
+		a, b, c := ri(r, 8), ri(r, 8), r.Intn(8)
+		rd := func(ctrKind, fault, tsKind int64) sim.Step {
+			return sim.Step{Op: "st.read", A: c, I: []int64{a, 0, b, ctrKind, fault, 0, tsKind}}
+		}
+		var out []sim.Step
+		if r.Intn(3) == 0 {
+			out = append(out, sim.Step{Op: "st.rp_lock", A: c, I: []int64{int64(r.Intn(2)), -1}})
+		}
+		up := []int64{0, 1, 2, 7}
+		out = append(out, rd(up[r.Intn(4)], 0, []int64{4, 4, 0}[r.Intn(3)]))
+		switch r.Intn(4) {
+		case 0:
+			out = append(out, sim.Step{Op: "clock", I: []int64{[]int64{1, 10, 3600}[r.Intn(3)]}})
+		case 1:
+			out = append(out, sim.Step{Op: "block", I: []int64{ri(r, 8), ri(r, 2)}})
+		}
+		for i := 0; i < 1+r.Intn(2); i++ {
+			out = append(out, rd(up[r.Intn(4)], 0, []int64{0, 1, 2, 3}[r.Intn(4)]))
+		}
+		for i := 0; i < 1+r.Intn(3); i++ {
+			if r.Intn(4) == 0 {
+				out = append(out, sim.Step{Op: "block", I: []int64{ri(r, 8), ri(r, 2)}})
+			}
+			out = append(out, rd(0, 9, 7))
 		}
 		return out
 	case "i.free":
